@@ -19,11 +19,13 @@ Theorem C06_flush_in_pop_order : forall p a d evs s,
 Proof. exact flush_in_pop_order. Qed.
 Print Assumptions C06_flush_in_pop_order.
 
-(* an immediate priority change leaves the heap in order (the next frame is sorted by the
-   new priority); a lazy one marks it out of order *)
+(* a lazy priority change marks the heap out of order; an immediate one changes the priority at once and leaves the order mark as
+   it was — except that it clears it when the mark is due to a lazy change of the same bar made just before on an ordered heap
+   (C06_lazy_then_immediate_restores_order below is why) *)
 Theorem C06_fix : forall s b p lazy idx hl s',
   step s (HM_FIX b p lazy idx hl) = Some s' -> 0 <= idx ->
-  hdirty s' = (hdirty s || lazy) /\ prio_of s' b = p.
+  hdirty s' = (if lazy then true else hdirty s && negb (eqo (last_lazy s) (Some b))) /\ prio_of s' b = p /\
+  last_lazy s' = (if lazy && negb (hdirty s) then Some b else None).
 Proof. exact fix_dirty. Qed.
 Print Assumptions C06_fix.
 
@@ -72,6 +74,16 @@ Theorem C06_fix_restores_order : forall q0 i p,
   length (arr (fix_at q i)) = length (arr q0).
 Proof. exact fix_ok. Qed.
 Print Assumptions C06_fix_restores_order.
+
+(* a lazy change of a bar in an ordered heap followed by an immediate change of the same bar: heap.Fix at that bar restores the
+   whole order (the bar is the only element out of place), so the next frame is in priority order again *)
+Theorem C06_lazy_then_immediate_restores_order : forall q0 i p p',
+  hp (arr q0) (length (arr q0)) -> (i < length (arr q0))%nat ->
+  let q := set_priority (set_priority q0 i p) i p' in
+  hp (arr (fix_at q i)) (length (arr q0)) /\ Permutation (arr (fix_at q i)) (arr q) /\
+  length (arr (fix_at q i)) = length (arr q0).
+Proof. exact lazy_then_immediate_restores_order. Qed.
+Print Assumptions C06_lazy_then_immediate_restores_order.
 
 (* the two models agree: the pop the verified queue makes is one the container acceptor accepts (its HM_POP rule allows
    any bar of greatest priority), and the queue keeps holding the acceptor's heap *)
